@@ -791,12 +791,19 @@ func (P *Program) phiChainFormula(phi *ssa.Phi, depth int) *formula {
 func (P *Program) GuardsWithin(ins ssa.Instruction, top *ssa.Function) []Lit {
 	out := append([]Lit{}, P.BlockGuards(ins.Block())...)
 	fn := ins.Parent()
-	for fn != nil && fn != top && fn.Parent() != nil {
-		mc := P.closureSite(fn)
-		if mc == nil {
-			break
+	for steps := 0; fn != nil && fn != top && steps < 16; steps++ {
+		if fn.Parent() != nil {
+			if mc := P.closureSite(fn); mc != nil {
+				out = append(out, P.BlockGuards(mc.Block())...)
+			}
 		}
-		out = append(out, P.BlockGuards(mc.Block())...)
+		// invoked at exactly one (pinned) place - a helper called from top, or a function literal handed to such a
+		// helper and called there: the guards of that place hold as well, and the chain continues from there
+		if callers := P.Callers(fn); len(callers) == 1 {
+			out = append(out, P.BlockGuards(callers[0].Block())...)
+			fn = callers[0].Parent()
+			continue
+		}
 		fn = fn.Parent()
 	}
 	return dedupLits(out)
